@@ -22,7 +22,7 @@ HASHSEEDS = ["0", "1", "2", "3"]
 
 BUDGET = {
     # prop: (quick runs, thorough runs)
-    "C01": (5000, 100000), "C02": (5000, 100000), "C03": (4000, 80000), "C04": (4000, 80000),
+    "C01": (5000, 100000), "C02": (5000, 100000), "C03": (4000, 24000), "C04": (4000, 80000),
     "C05": (5000, 100000), "C06": (4000, 50000), "C07": (4000, 60000), "C08": (6000, 60000),
     "C09": (6000, 60000), "C10": (6000, 60000), "C11": (6000, 100000), "C16": (4000, 60000),
     "C17": (1600, 24000), "C18": (4000, 60000), "C19": (6000, 60000),
